@@ -44,6 +44,7 @@ from harness import c07_arity as A
 from harness import c07_exec as X
 from harness import c07_fns as FN
 from harness import c07_gen as G
+from harness import c07_scope as S
 from harness import common
 from harness.common import Run, clist, cn, cq
 
@@ -76,6 +77,14 @@ _ZERO_BLOCK = (
     "if len(diff_eqs) > 0:\n    for variable in variables:\n        if variable not in diff_eqs:\n"
     "            diff_eqs[variable] = {}\n"
     "            source.append(assignment_template.format(k=f'd{variable}dt', v='0.0'))"
+)
+# the same block with the zero produced "like every other equation": the empty sum (sympy.Integer(0)) through
+# the language printer -- `0` in every language, which Rust does not accept for an f64 (seeded change C07-9)
+_ZERO_BLOCK_PRINTED = (
+    "if len(diff_eqs) > 0:\n    for variable in variables:\n        if variable not in diff_eqs:\n"
+    "            diff_eqs[variable] = {}\n"
+    "            expr = stoichiometries_to_sympy(origin=variable, stoichs={})\n"
+    "            source.append(assignment_template.format(k=f'd{variable}dt', v=sympy_inline_fn(expr)))"
 )
 _MID = [
     "if imports is not None:\n    source.extend(imports)",
@@ -244,12 +253,33 @@ _HANDLE_NAME = [
     "    value = sympy.Float(global_variables[node.id])",
     "return value",
 ]
+# the module's float constants consulted FIRST, the symbol table only for names that are no constant: a
+# constant shadows a parameter / local of the same name (seeded change C07-8; coq/codegen/NameScope.v)
+_HANDLE_NAME_GLOBAL_FIRST = [
+    "global_variables = dict(inspect.getmembers(ctx.parent_module, predicate=lambda x: isinstance(x, float)))",
+    "if (constant := global_variables.get(node.id)) is not None:\n    return sympy.Float(constant)",
+    "return ctx.symbols[node.id]",
+]
+_HANDLE_NAME_FORMS = (("NkLocalFirst", _HANDLE_NAME), ("NkGlobalFirst", _HANDLE_NAME_GLOBAL_FIRST))
 _HANDLE_CALL_HEAD = [
     "if node.keywords:\n    msg = '...'\n    raise NotImplementedError(msg)",
     "model_args: list[sympy.Expr] = []",
     "for i in node.args:\n    if (expr := _handle_expr(i, ctx)) is None:\n        return None\n    model_args.append(expr)",
 ]
 _HANDLE_CALL_TAIL = "return fn_to_sympy(py_fn, origin=ctx.origin, model_args=model_args)"
+
+
+def extract_name_fact() -> str:
+    """Which table _handle_name consults first (fail-closed: NkUnknown)."""
+    try:
+        tree = ast.parse((common.REPO / "src/mxlpy/meta/source_tools.py").read_text())
+    except (OSError, SyntaxError):
+        return "NkUnknown"
+    hn = _find(tree, "_handle_name")
+    if hn is None:
+        return "NkUnknown"
+    st = _stmts(hn)
+    return next((k for k, form in _HANDLE_NAME_FORMS if st == form), "NkUnknown")
 
 
 def extract_bind_fact() -> str:
@@ -273,7 +303,10 @@ def extract_bind_fact() -> str:
     body = [ast.unparse(x) for x in tries[0].body]
     if len(body) != len(_BIND_PRE) + 2 or body[: len(_BIND_PRE)] != _BIND_PRE or body[-1:] != _BIND_POST:
         return "BkUnknown"
-    if _stmts(hn) != _HANDLE_NAME:
+    # either modelled order of _handle_name's two lookups (its own fact, extract_name_fact): in both a name
+    # that is neither a parameter nor a float constant of the module is a KeyError, which is all the binding
+    # model assumes of it
+    if not any(_stmts(hn) == form for _k, form in _HANDLE_NAME_FORMS):
         return "BkUnknown"
     sc = _stmts(hc)
     if sc[:3] != _HANDLE_CALL_HEAD or sc[-1] != _HANDLE_CALL_TAIL:
@@ -287,8 +320,11 @@ def _expected_switch() -> dict[str, str]:
     ia = re.search(r"Definition C07_expected_ia : ia_kind := (\w+)\.", text)
     ut = re.search(r"Definition C07_expected_untouched : ut_kind := (\w+)\.", text)
     bk = re.search(r"Definition C07_expected_bind : bind_kind := (\w+)\.", text)
-    return {"ia": ia.group(1) if ia else "IaUnknown", "untouched": ut.group(1) if ut else "UtUnknown",
-            "bind": bk.group(1) if bk else "BkUnknown"}
+    utv = ut.group(1) if ut else "UtUnknown"
+    return {"ia": ia.group(1) if ia else "IaUnknown", "untouched": utv,
+            "bind": bk.group(1) if bk else "BkUnknown",
+            # no switch of their own: the tree's forms (PropsC07.v: C07_name_fact_pinned, C07_zero_literal_pinned)
+            "name": "NkLocalFirst", "zero_lit": {"UtZero": "ZlFloat", "UtDropped": "ZlAbsent"}.get(utv, "ZlUnknown")}
 
 
 EXPECTED_FACTS = {
@@ -327,7 +363,7 @@ def extract_facts() -> dict[str, Any]:
     facts: dict[str, Any] = {
         l: ("AsgUnknown", "DsUnknown", "RetUnknown", "false") for l in G.LANGS
     } | {"order": "OrdUnknown", "copy": "false", "shape_ok": "false", "stoich_ok": "false", "printers_ok": "false",
-         "ia": "IaUnknown", "untouched": "UtUnknown", "bind": "BkUnknown"}
+         "ia": "IaUnknown", "untouched": "UtUnknown", "bind": "BkUnknown", "name": "NkUnknown", "zero_lit": "ZlUnknown"}
     try:
         tree = ast.parse((common.REPO / "src/mxlpy/meta/codegen_model.py").read_text())
         tools = ast.parse((common.REPO / "src/mxlpy/meta/sympy_tools.py").read_text())
@@ -352,10 +388,14 @@ def extract_facts() -> dict[str, Any]:
         rest = rest[5:]
         # the explicit zeros come right after the loop that writes the sums
         post_zero = _POST[:3] + [_ZERO_BLOCK] + _POST[3:]
+        post_zero_printed = _POST[:3] + [_ZERO_BLOCK_PRINTED] + _POST[3:]
         for emit, kind in ((_EMIT_DECL, "OrdDecl"), (_EMIT_DEP, "OrdDep")):
-            if ok and rest[: len(emit)] == emit and rest[len(emit) :] in (_POST, post_zero):
+            if ok and rest[: len(emit)] == emit and rest[len(emit) :] in (_POST, post_zero, post_zero_printed):
                 facts["order"] = kind
-                facts["untouched"] = "UtZero" if rest[len(emit) :] == post_zero else "UtDropped"
+                tail = rest[len(emit) :]
+                facts["untouched"] = "UtDropped" if tail == _POST else "UtZero"
+                # which TEXT the explicit zero is (coq/codegen/RustLit.v): the program's skeleton is the same
+                facts["zero_lit"] = "ZlAbsent" if tail == _POST else ("ZlFloat" if tail == post_zero else "ZlPrinted")
                 break
         else:
             ok = False
@@ -402,6 +442,7 @@ def extract_facts() -> dict[str, Any]:
             pr_ok = False
     facts["printers_ok"] = "true" if pr_ok else "false"
     facts["bind"] = extract_bind_fact()
+    facts["name"] = extract_name_fact()
     return facts
 
 
@@ -411,12 +452,16 @@ def gen() -> dict[str, Any]:
     text = (
         "(* REGENERATED from src/mxlpy/meta/codegen_model.py, sympy_tools.py and source_tools.py by harness/c07.py; do not edit.\n"
         "   An unrecognised shape yields a *Unknown constructor / false, which breaks C07_facts_pinned. *)\n"
-        "From Codegen Require Import Codegen CallArity.\n"
+        "From Codegen Require Import Codegen CallArity NameScope RustLit.\n"
         "Definition gen_codegen_facts : facts :=\n"
         f"  mkFacts {lf(f['py'])} {lf(f['ts'])}\n          {lf(f['rs'])} {lf(f['jl'])}\n"
         f"          {f['order']} {f['copy']} {f['shape_ok']} {f['stoich_ok']} {f['printers_ok']} {f['ia']} {f['untouched']}.\n"
         "(* the argument binding of src/mxlpy/meta/source_tools.py::fn_to_sympy *)\n"
         f"Definition gen_bind_fact : bind_kind := {f['bind']}.\n"
+        "(* which table src/mxlpy/meta/source_tools.py::_handle_name consults first *)\n"
+        f"Definition gen_name_fact : name_kind := {f['name']}.\n"
+        "(* the text of the explicit zero of a variable no reaction acts on (_generate_model_code) *)\n"
+        f"Definition gen_zero_lit : zero_lit := {f['zero_lit']}.\n"
     )
     common.write_if_changed(common.area_dir(AREA) / "GenCodegenFacts.v", text)
     return {k: (list(v) if isinstance(v, tuple) else v) for k, v in f.items()}
@@ -556,7 +601,24 @@ def judge(desc: dict, lang: str, obs: dict, execs: list[tuple] | None, refs: lis
 KNOWN_IDS: set[str] = set()  # ids of the findings recorded for C07 right now (filled by check / replay)
 
 
-def finding_for(desc: dict, lang: str, exec_class: str | None = None) -> str | None:
+def zero_line_literals(desc: dict, ex0: tuple | None) -> list[str]:
+    """Rust lines rustc rejects for an integer literal that are the EXPLICIT derivative line of a
+    variable no reaction acts on (`let d<x>dt: f64 = <integer>;`).  That line holds no translated
+    function, no SymPy sum and no parameter value -- the generator writes the number itself -- so the
+    recorded finding rs-integer-literal (integers SymPy leaves in translated expressions, Python-int
+    parameter values) does not cover it."""
+    if not ex0 or ex0[0] != "intlit" or len(ex0) < 3:
+        return []
+    unc = {G.nm(v) for v in G.shape_flags(desc)["uncovered"]}
+    out = []
+    for ln in ex0[2]:
+        m = re.fullmatch(r"let d(n\d{4})dt: f64 = [-+]?\d+;", ln)
+        if m and m.group(1) in unc:
+            out.append(ln)
+    return out
+
+
+def finding_for(desc: dict, lang: str, exec_class: str | None = None, ex0: tuple | None = None) -> str | None:
     """The RECORDED finding whose guard contains this case (None: the case is inside the guards of
     C07_equiv_partial, or its finding is no longer recorded -- e.g. moved to "fixed" by
     tools/c07_switch.py: a violation there is a VIOLATION)."""
@@ -574,7 +636,7 @@ def finding_for(desc: dict, lang: str, exec_class: str | None = None) -> str | N
         cands.append("assigned-parameter-not-emitted")
         if f["free_feeds_ia"]:
             cands.append("assigned-parameter-reads-free-parameter")  # the emitted value is the one at generation time
-    if lang == "rs" and exec_class == "intlit":
+    if lang == "rs" and exec_class == "intlit" and not zero_line_literals(desc, ex0):
         cands.append("rs-integer-literal")
     if f["empty_call_only"]:
         # generation does not raise for a call that passes no argument to a function whose parameters
@@ -763,6 +825,35 @@ def _corpus() -> list[dict]:
     return out
 
 
+def _corpus_closing() -> list[tuple[dict, list[tuple]]]:
+    """Later corpus entries come WITH their states (they draw nothing from the run's random stream, so
+    the random models of a seed stay what they were)."""
+    F = Fraction
+    out = []
+    # module-level float constants (harness/c07_fns.py: c_half = 0.5, c_gain = 4.0): one rate reads them as
+    # globals, another has a PARAMETER called c_half fed with a model parameter (free, called off its stored
+    # value), a derived quantity a LOCAL called c_half, a rate rebinding its parameter c_gain, a computed
+    # coefficient whose helper's parameter shadows c_gain  (the shape of seeded change C07-8)
+    d = {"par": [(11, F(3), None), (12, F(3, 2), None)], "var": [(13, F(1)), (14, F(1, 2))],
+         "der": [(19, 40, [13, 12])],
+         "rxn": [(20, 38, [13], [(13, ("stat", F(-1))), (14, ("stat", F(1)))]),
+                 (21, 39, [14, 11], [(14, ("stat", F(-1)))]),
+                 (22, 41, [19, 11], [(13, ("dyn", 42, [12, 11]))])],
+         "free": [11]}
+    out.append((d, [(F(0), [F(2), F(3)], [F(5)]), (F(1), [F(1), F(-1, 2)], [F(-2)]), (F(2), [F(-3), F(1)], [F(3)])]))
+    out.append(({**d, "free": []}, [(F(0), [F(2), F(3)], []), (F(1), [F(1), F(-1, 2)], [])]))
+    # an enzyme pool that only enters the kinetics, declared BETWEEN two variables reactions act on: its
+    # derivative is the explicit zero the generator writes itself (the shape of seeded change C07-9;
+    # compiled with rustc in either tier)
+    e = {"par": [(11, F(2), None), (12, F(1, 2), None)], "var": [(13, F(1)), (14, F(1, 2)), (15, F(1, 4))], "der": [],
+         "rxn": [(16, 9, [13, 14, 11], [(13, ("stat", F(-1))), (15, ("stat", F(2)))]),
+                 (17, 4, [15, 12], [(15, ("stat", F(-1)))])],
+         "free": []}
+    out.append((e, [(F(0), [F(1), F(1, 2), F(1, 4)], []), (F(3), [F(3), F(-2), F(1, 2)], [])]))
+    out.append(({**e, "free": [12]}, [(F(0), [F(1), F(1, 2), F(1, 4)], [F(3)]), (F(3), [F(3), F(-2), F(1, 2)], [F(-1)])]))
+    return out
+
+
 def _exec_all(texts: list[tuple[int, str, str, list[tuple]]], work) -> tuple[dict[int, list[tuple]], dict]:
     """texts: (case index, lang, text, points) -> outcomes per case index."""
     res: dict[int, list[tuple]] = {}
@@ -807,7 +898,9 @@ def check(run: Run) -> None:
     KNOWN_IDS.clear()
     KNOWN_IDS.update(f["id"] for f in common.load_known_findings("C07"))
     run.rule = (
-        "corpus + function-table sweep (every translatable function as rate / derived quantity / computed coefficient over "
+        "corpus (incl. rate laws whose parameter / local is called like a float constant of their module, fed with a free parameter "
+        "off its stored value; an enzyme pool no reaction acts on -- the corpus also compiled with rustc in the quick tier) "
+        "+ function-table sweep (every translatable function as rate / derived quantity / computed coefficient over "
         "free parameters, evaluated on both sides of every condition of its source) + refusal sweep (every untranslatable "
         "function of the table, incl. the ten refused by arity -- default values relied on, keyword-only parameters, *args, "
         "empty argument lists --, as rate / derived quantity / coefficient, with and without a model component named like the "
@@ -820,7 +913,7 @@ def check(run: Run) -> None:
     )
     proofs_ok = run.check_proofs(AREA, PROPS)
     run.assumptions += [
-        "Coq 8.16.1 kernel + vm_compute; all 31 statements of PropsC07.v closed under the global context (see trusted_base)",
+        "Coq 8.16.1 kernel + vm_compute; all 42 statements of PropsC07.v closed under the global context (see trusted_base)",
         "coq/codegen/ExpectedFacts.v (hand-maintained, tools/c07_switch.py): which form of the two places with a proposed, not yet applied repair (assignment-defined parameters, variables without a reaction) the regenerated facts are pinned to; the recorded findings list decides which failures are counted instead of reported",
         "hypothesis C06 of C07_equiv_partial: per-function translation soundness (property C06) -- the inlined target expression of a translated function has the value of the Python function; fn_to_sympy, SymPy's simplifier and its py/js/rust/julia printers are covered by that hypothesis, not verified (validated on every case by executing the emitted text)",
         "hypothesis ValidOrder: the order read from the model's cache lists every derived quantity/reaction after what it reads (what C02 proves of the sorter); Resolved is the specification of 'what the model returns' (C01), compared with Model.__call__ on every case (aspect 3 of the correspondence)",
@@ -828,7 +921,9 @@ def check(run: Run) -> None:
         "function table harness/c07_fns.py mirrored by hand in coq/codegen/CgInst.v (fsemQ/translatesQ); aspect 3 of the correspondence (specification vs Model.__call__) compares the two tables on every case, the sweep on both sides of every condition of every function",
         "binding model coq/codegen/CallArity.v: covers the argument-binding statement of fn_to_sympy only (bodies: + - * over names and numbers, at most one helper call); tied by extract_bind_fact (fn_to_sympy's try-body and handler, _handle_name, head/tail of _handle_call; fail-closed) and by the arity correspondence harness/c07_arity.py, which regenerates the functions' descriptions from their Python source and runs the REAL fn_to_sympy; coq/codegen/ExpectedFacts.v::C07_expected_bind (hand-maintained, tools/c07_switch.py bind) says which form the tree has; a refusal through KeyError (keyword-only parameter) is observed as ObsUntransKey: the exception class of that refusal is not modelled",
         "fact extractor harness/c07.py::extract_facts (fail-closed ast matcher, whole-function normalised comparison); skeleton reader harness/c07_exec.py",
-        "executors: CPython exec, node (type annotations stripped by a regex), rustc (thorough tier; one witness per quick run), a Julia-SUBSET interpreter written for this check (Julia is not installed)",
+        "executors: CPython exec, node (type annotations stripped by a regex), rustc (the corpus in either tier, every model in the thorough tier; rejected programs are classified from the error codes and the source line of each error), a Julia-SUBSET interpreter written for this check (Julia is not installed)",
+        "name-resolution model coq/codegen/NameScope.v: straight-line bodies (assignments, return; + - * over names and numbers), all parameters positional and required, the module's FLOAT constants; tied by extract_name_fact (the whole body of _handle_name, fail-closed) and by the scope correspondence harness/c07_scope.py, which regenerates the descriptions from the Python source and runs the REAL fn_to_sympy; conditionals, helper calls and everything else fn_to_sympy does stay behind hypothesis C06 (validated by executing the emitted text of every table function)",
+        "explicit-zero model coq/codegen/RustLit.v: float vs integer token bound to an f64, for the ONE number the generator writes itself (regenerated fact gen_zero_lit); every other number of a Rust text is outside the model (recorded finding rs-integer-literal) -- the oracle tells the two apart by the source line rustc reports",
         "floating point: all generated values are small dyadic rationals and the functions polynomial/piecewise linear, so binary64 evaluation is exact; rounding is outside the model",
         "custom_fns overrides and surrogates are not modelled (the generator only warns about surrogates); Rust integer literals are outside the one-numeric-type model (recorded finding, oracle only)",
     ]
@@ -838,7 +933,8 @@ def check(run: Run) -> None:
     rng = common.rng_for(run.seed, "c07")
     langs = ("py", "ts", "rs", "jl") if thorough else ("py", "ts", "jl")
     n_models = 700 if thorough else 130
-    descs: list = list(_corpus())
+    descs: list = list(_corpus()) + _corpus_closing()
+    n_corpus = len(descs)
     # every translatable function of the table on both sides of every condition of its source
     # (own random stream: the sweep does not disturb the models drawn below)
     sweep, sweep_stats = G.sweep_cases(common.rng_for(run.seed, "c07-sweep"))
@@ -853,15 +949,16 @@ def check(run: Run) -> None:
         descs.append(G.gen_desc(rng, profile="clean" if i % 3 == 0 else None))
     work = common.scratch_dir("c07")
     try:
-        _check_body(run, rng, descs, langs, work, proofs_ok)
+        # the corpus is compiled with rustc in the quick tier as well (one small crate)
+        _check_body(run, rng, descs, langs, work, proofs_ok, rs_first=n_corpus)
     finally:
         shutil.rmtree(work, ignore_errors=True)
 
 
-def _check_body(run: Run, rng, descs: list[dict], langs, work, proofs_ok: bool) -> None:
+def _check_body(run: Run, rng, descs: list[dict], langs, work, proofs_ok: bool, rs_first: int = 0) -> None:
     cases: list[dict] = []
     discarded = 0
-    for item in descs:
+    for k_item, item in enumerate(descs):
         # a description, or (description, the states to evaluate it at)
         desc, points = item if isinstance(item, tuple) else (item, None)
         if points is None:
@@ -872,7 +969,7 @@ def _check_body(run: Run, rng, descs: list[dict], langs, work, proofs_ok: bool) 
             discarded += 1
             continue
         refs = model_values(desc, points) if G.shape_flags(desc)["free_ok"] else [None] * len(points)
-        for lang in langs:
+        for lang in (*langs, *(("rs",) if "rs" not in langs and k_item < rs_first else ())):
             cases.append({"desc": desc, "lang": lang, "points": points, "refs": refs, "indep": indep})
     for c in cases:
         c["obs"] = run_generator(c["desc"], c["lang"])
@@ -920,7 +1017,10 @@ def _check_body(run: Run, rng, descs: list[dict], langs, work, proofs_ok: bool) 
         if ex:
             dist[f"exec:{lang}:{ex_class}"] = dist.get(f"exec:{lang}:{ex_class}", 0) + 1
         if bad:
-            fid = finding_for(desc, lang, ex_class)
+            fid = finding_for(desc, lang, ex_class, ex[0] if ex else None)
+            zl = zero_line_literals(desc, ex[0] if ex else None)
+            if zl:
+                bad += f" -- the explicit zero of a variable no reaction acts on is an integer literal: {zl[0]!r}"
             if fid is not None:
                 find_hits[fid] = find_hits.get(fid, 0) + 1
             elif (kind := re.sub(r"\d+", "", re.sub(r"\b(py|ts|rs|jl)\b", "L", bad))[:48]) not in seen_kinds and n_viol < 6:
@@ -988,6 +1088,7 @@ def _check_body(run: Run, rng, descs: list[dict], langs, work, proofs_ok: bool) 
     run.coverage["traces_validated_against_impl"] = len(cases) - mism
     run.coverage["correspondence_mismatches"] = mism
     _arity_correspondence(run)
+    _scope_correspondence(run)
 
     # known findings: replay every witness
     for f in common.load_known_findings("C07"):
@@ -1031,6 +1132,32 @@ def _arity_correspondence(run: Run) -> None:
     }
 
 
+def _scope_correspondence(run: Run) -> None:
+    """the model of fn_to_sympy's name resolution (coq/codegen/NameScope.v) against the real
+    fn_to_sympy: harness/c07_scope.py"""
+    try:
+        terms, info = S.cases()
+    except ValueError as e:
+        run.broken_correspondence.append(f"scope correspondence: a function of harness/c07_fns.py is not of the described shape: {e}")
+        return
+    res = common.coq_eval_many(AREA, {"c07_scope": S.corr_file(terms)}, timeout_s=600)
+    ok, out = res["c07_scope"]
+    lists = common.parse_eval_list(out) if ok else None
+    if not ok or lists is None or not lists:
+        run.broken_correspondence.append(f"scope correspondence did not evaluate: {out[-300:]}")
+        return
+    for codev in lists[-1]:
+        j, aspect = divmod(codev, 8)
+        if len(run.broken_correspondence) < 8:
+            run.broken_correspondence.append(
+                f"name-resolution model and fn_to_sympy disagree on {S.ASPECT.get(aspect, aspect)}: {info[j]}")
+    run.coverage["scope_correspondence"] = {
+        "cases": len(terms), "mismatches": len(lists[-1]),
+        "refused": sum(1 for i in info if i["fn_to_sympy"] != "expression"),
+        "translated_where_cpython_raises": [i["fn"] for i in info if i["fn_to_sympy"] == "expression" and all(p is None for p in i["python"])],
+    }
+
+
 def replay(rep: dict) -> int:
     r = rep["replay"]
     if r.get("kind") != "case":
@@ -1054,6 +1181,6 @@ def replay(rep: dict) -> int:
         print(res["obs"]["text"])
     print("executed:", res["execs"])
     print("model returns:", [[str(x) for x in v] if v is not None else None for v in res["refs"]])
-    fid = finding_for(desc, r["lang"], res["execs"][0][0] if res["execs"] else None)
+    fid = finding_for(desc, r["lang"], res["execs"][0][0] if res["execs"] else None, res["execs"][0] if res["execs"] else None)
     print("oracle:", res["bad"] or "property holds on this input", f"(inside recorded finding {fid})" if (res["bad"] and fid) else "")
     return 1 if res["bad"] else 0
